@@ -59,6 +59,13 @@ def collect(P):
     # IndexWriterStatus: Inner::kill clears is_alive AND drops the status's copy of the receiver (wakes a blocked sender)
     P.flag("KILL_DROPS_RECEIVER", "src/indexer/index_writer_status.rs",
            r"fn kill\(&self\) \{[^}]*is_alive\.store\(false[^}]*self\.receive_channel[^}]*\.take\(\);")
+    # a segment updater must not outlive its writer as a publisher: Drop and rollback kill it, save_metas refuses on a killed updater
+    P.flag("DROP_KILLS_UPDATER", "src/indexer/index_writer.rs",
+           r"impl<D: Document> Drop for IndexWriter<D> \{\s*fn drop\(&mut self\) \{[^}]*self\.segment_updater\.kill\(\);")
+    P.flag("ROLLBACK_KILLS_UPDATER", "src/indexer/index_writer.rs",
+           r"pub fn rollback\(&mut self\).{0,1500}?self\.segment_updater\.kill\(\);")
+    P.flag("SAVE_METAS_CHECKS_ALIVE", "src/indexer/segment_updater.rs",
+           r"pub fn save_metas\(\s*&self,[^)]*\) -> crate::Result<\(\)> \{\s*if self\.is_alive\(\) \{")
     # MmapDirectory::sync_directory (unix): opens the root and fsyncs it
     P.flag("SYNC_DIRECTORY_FSYNCS_ROOT", "src/directory/mmap_directory/mod.rs",
            r"#\[cfg\(not\(windows\)\)\]\s*fn sync_directory\(&self\) -> Result<\(\), io::Error> \{.{0,400}?open\(&self\.inner\.root_path\)\?;\s*fd\.sync_(data|all)\(\)\?;")
